@@ -48,7 +48,16 @@ package upstream
 //@   aftercall JoinHostPort?: gj = ret0
 //@   modifies nothing
 //@   callsite SplitHostPort: [C17:port-judged-on-address-used] arg0 == (len(dialAddr) > 0 ? dialAddr : urlAddr)
-//@   callsite JoinHostPort: [C17:default-port-added-to-that-host] arg1 == defaultPort && (gerr == nil ? arg0 == ghost0 : arg0 == (len(dialAddr) > 0 ? dialAddr : urlAddr))
+// the host the default port is joined to is the bare host: an IPv6 literal written in brackets without a port
+// ("[::1]") must not be bracketed a second time
+//@   ghost gTrimIn string = ""
+//@   ghost gTrimOut string = ""
+//@   ghost nTrim int = 0
+//@   oncall tryTrimIpv6Brackets?: nTrim = nTrim + 1
+//@   oncall tryTrimIpv6Brackets?: gTrimIn = arg0
+//@   aftercall tryTrimIpv6Brackets?: gTrimOut = ret0
+//@   callsite tryTrimIpv6Brackets?: [C17:default-port-added-to-that-host] (gerr == nil ? arg0 == ghost0 : arg0 == (len(dialAddr) > 0 ? dialAddr : urlAddr))
+//@   callsite JoinHostPort: [C17:default-port-added-to-the-bare-host] arg1 == defaultPort && nTrim == 1 && arg0 == gTrimOut
 //@   ensures [C17:unix-override-unchanged] len(dialAddr) > 0 && dialAddr[0] == '@' ==> sameSlice(r, dialAddr, 0, len(dialAddr)) && nSplit == 0
 //@   ensures [C17:with-port-unchanged] !(len(dialAddr) > 0 && dialAddr[0] == '@') && gerr == nil && len(gport) > 0 ==>
 //@             (len(dialAddr) > 0 ? sameSlice(r, dialAddr, 0, len(dialAddr)) : sameSlice(r, urlAddr, 0, len(urlAddr)))
